@@ -9,7 +9,9 @@
      cache     : BlobManager.blobs  -- hash -> (is the cached object a BlobFile (true) or a BlobBuffer (false),
                  its `verified` flag)
      alive     : false after a simulated process death (memory is gone until the next restart)
-     save      : config.save_blobs (default True); fixed while a process lives, chosen again at every restart *)
+     save      : config.save_blobs (default True); fixed while a process lives, chosen again at every restart
+     marked    : the rows with should_announce=1; together with the status column this decides what
+                 SQLiteStorage.get_blobs_to_announce hands to the DHT announcer (announce_list below) *)
 From Coq Require Import NArith List Bool.
 From Coq.Strings Require Import Byte.
 From LV Require Import Lib.Bytes.
@@ -102,9 +104,10 @@ Record state := mkState {
   completed : list name;
   cache : cache_t;
   alive : bool;
-  save : bool }.
+  save : bool;
+  marked : list name }.          (* the hashes whose row has should_announce=1 (set by store_stream for sd blobs) *)
 
-Definition init : state := mkState [] [] [] [] true true.
+Definition init : state := mkState [] [] [] [] true true [].
 
 (* BlobManager.is_blob_verified(h) for a valid h (length None) *)
 Definition is_blob_verified (d : disk_t) (c : cache_t) (h : name) : bool :=
@@ -130,16 +133,16 @@ Definition setup (s : state) : state :=
   let completed1 := fold_left (fun acc h => set_add h acc) to_add (completed s) in
   let rest := filter (fun f => negb (mem f to_add)) files in
   let (db2, cache2) := ensure_completed (disk s) rest db1 (cache s) in
-  mkState (disk s) db2 completed1 cache2 true (save s).
+  mkState (disk s) db2 completed1 cache2 true (save s) (marked s).
 
 (* the process is gone: everything in memory is lost, disk and database stay *)
-Definition wipe (s : state) (al : bool) : state := mkState (disk s) (db s) [] [] al (save s).
+Definition wipe (s : state) (al : bool) : state := mkState (disk s) (db s) [] [] al (save s) (marked s).
 
 (* a (re)start of the blob manager: fresh BlobManager (or stop() on the old one), then setup() *)
 Definition restart (s : state) : state := setup (wipe s true).
 (* the same with config.save_blobs set to b for the new process *)
 Definition restart_with (s : state) (b : bool) : state :=
-  restart (mkState (disk s) (db s) (completed s) (cache s) (alive s) b).
+  restart (mkState (disk s) (db s) (completed s) (cache s) (alive s) b (marked s)).
 
 (* ---------- operations between restarts ---------- *)
 Inductive result := RDone | RHave | RBusy | RInvalid | RNoLength | RDead | RPrecondition.
@@ -169,10 +172,10 @@ Definition write_file (d : disk_t) (h : name) (sz : N) : disk_t :=
 
 (* BlobManager.blob_completed(blob) for a BlobFile, including the storage.add_blobs task it schedules *)
 Definition blob_completed (s : state) (h : name) : state :=
-  mkState (disk s) (db_add (db s) h true) (set_add h (completed s)) (cache s) (alive s) (save s).
+  mkState (disk s) (db_add (db s) h true) (set_add h (completed s)) (cache s) (alive s) (save s) (marked s).
 (* ... and for a BlobBuffer: add_blobs(..., finished=False), nothing is reported as completed *)
 Definition buffer_completed (s : state) (h : name) : state :=
-  mkState (disk s) (db_add (db s) h false) (completed s) (cache s) (alive s) (save s).
+  mkState (disk s) (db_add (db s) h false) (completed s) (cache s) (alive s) (save s) (marked s).
 
 (* One blob download, as BlobDownloader.download_blob + BlobExchangeClientProtocol drive it:
    blob = get_blob(h, len); verified -> nothing to do; not blob.is_writeable() (a file is there) -> give up;
@@ -181,38 +184,38 @@ Definition buffer_completed (s : state) (h : name) : state :=
 Definition complete (s : state) (h : name) (len : N) : state * result :=
   if negb (valid_name h) then (s, RInvalid) else
   let '(d1, e, c1) := get_blob (save s) (disk s) (cache s) h len in
-  let s1 := mkState d1 (db s) (completed s) c1 (alive s) (save s) in
+  let s1 := mkState d1 (db s) (completed s) c1 (alive s) (save s) (marked s) in
   if snd e then (s1, RHave)
   else if fst e && is_file d1 h then (s1, RBusy)              (* BlobFile.is_writeable() is false *)
   else if len =? 0 then (s1, RNoLength)
   else if fst e then
-    let s2 := mkState (write_file d1 h len) (db s) (completed s) (set_key c1 h (true, true)) (alive s) (save s) in
+    let s2 := mkState (write_file d1 h len) (db s) (completed s) (set_key c1 h (true, true)) (alive s) (save s) (marked s) in
     (blob_completed s2 h, RDone)
   else
-    let s2 := mkState d1 (db s) (completed s) (set_key c1 h (false, true)) (alive s) (save s) in
+    let s2 := mkState d1 (db s) (completed s) (set_key c1 h (false, true)) (alive s) (save s) (marked s) in
     (buffer_completed s2 h, RDone).
 
 (* a download that was started and never finished: only get_blob(h, len) *)
 Definition touch (s : state) (h : name) (len : N) : state * result :=
   if negb (valid_name h) then (s, RInvalid) else
   let '(d1, e, c1) := get_blob (save s) (disk s) (cache s) h len in
-  (mkState d1 (db s) (completed s) c1 (alive s) (save s), if snd e then RHave else RDone).
+  (mkState d1 (db s) (completed s) c1 (alive s) (save s) (marked s), if snd e then RHave else RDone).
 
 (* the same download, but the process dies when [written] bytes of the file are on disk and before the database
    write (blob_completed may or may not have run: memory is lost either way); a BlobBuffer leaves nothing *)
 Definition crash_write (s : state) (h : name) (len written : N) : state * result :=
   if negb (valid_name h) then (s, RInvalid) else
   let '(d1, e, c1) := get_blob (save s) (disk s) (cache s) h len in
-  let s1 := mkState d1 (db s) (completed s) c1 (alive s) (save s) in
+  let s1 := mkState d1 (db s) (completed s) c1 (alive s) (save s) (marked s) in
   if snd e then (s1, RHave)
   else if fst e && is_file d1 h then (s1, RBusy)
   else if len =? 0 then (s1, RNoLength)
-  else (mkState (if fst e then write_file d1 h written else d1) (db s) [] [] false (save s), RDone).
+  else (mkState (if fst e then write_file d1 h written else d1) (db s) [] [] false (save s) (marked s), RDone).
 
 (* BlobFile.create_from_unencrypted(..., blob_completed_callback=blob_manager.blob_completed) on a fresh hash:
    the BlobFile is NOT entered in BlobManager.blobs *)
 Definition create_blob (s : state) (hl : name * N) : state :=
-  blob_completed (mkState (write_file (disk s) (fst hl) (snd hl)) (db s) (completed s) (cache s) (alive s) (save s))
+  blob_completed (mkState (write_file (disk s) (fst hl) (snd hl)) (db s) (completed s) (cache s) (alive s) (save s) (marked s))
                  (fst hl).
 
 Definition fresh (s : state) (h : name) : bool :=
@@ -233,7 +236,8 @@ Definition publish (s : state) (hs : list (name * N)) (sd : name * N) : state * 
   let s1 := fold_left create_blob all s in
   let c2 := set_key (cache s1) (fst sd) (true, true) in               (* get_blob(sd_hash): cache miss, file exists *)
   let db2 := fold_left (fun acc hl => db_insert_ignore acc (fst hl) Pending) all (db s1) in
-  (mkState (disk s1) db2 (completed s1) c2 (alive s1) (save s1), RDone).
+  (* store_stream: update blob set should_announce=1 where blob_hash in (sd_hash) *)
+  (mkState (disk s1) db2 (completed s1) c2 (alive s1) (save s1) (set_add (fst sd) (marked s1)), RDone).
 
 (* the same publish, but the process dies when the files of the first k hashes (of hs ++ [sd]) are written and
    only the first j of them (j <= k) have been recorded by storage.add_blobs *)
@@ -245,16 +249,16 @@ Definition publish_crash (s : state) (hs : list (name * N)) (sd : name * N) (k j
   let recorded := firstn (Nat.min j k) all in
   let d1 := fold_left (fun acc hl => write_file acc (fst hl) (snd hl)) written (disk s) in
   let db1 := fold_left (fun acc hl => db_add acc (fst hl) true) recorded (db s) in
-  (mkState d1 db1 [] [] false (save s), RDone).
+  (mkState d1 db1 [] [] false (save s) (marked s), RDone).
 
 (* BlobManager.delete_blob(h) for a valid h.  A cached BlobBuffer is only dropped (AbstractBlob.delete touches no
    file, even if one has appeared meanwhile). *)
 Definition delete_blob (s : state) (h : name) : state :=
   match lookup (cache s) h with
   | None => mkState (if is_file (disk s) h then remove_key (disk s) h else disk s)
-                    (db s) (completed s) (cache s) (alive s) (save s)
+                    (db s) (completed s) (cache s) (alive s) (save s) (marked s)
   | Some e => mkState (if fst e && is_file (disk s) h then remove_key (disk s) h else disk s)
-                      (db s) (set_remove h (completed s)) (remove_key (cache s) h) (alive s) (save s)
+                      (db s) (set_remove h (completed s)) (remove_key (cache s) h) (alive s) (save s) (marked s)
   end.
 
 (* the loop of BlobManager.delete_blobs: an invalid hash raises and aborts before the database is touched *)
@@ -265,19 +269,23 @@ Fixpoint delete_loop (s : state) (hs : list name) : state * bool :=
   end.
 
 Definition db_delete_all (db : db_t) (hs : list name) : db_t := fold_left db_delete hs db.
+(* a deleted row takes its should_announce flag with it *)
+Definition unmark_all (m : list name) (hs : list name) : list name := fold_left (fun acc h => set_remove h acc) hs m.
 
 (* BlobManager.delete_blobs(hs, delete_from_db)   (jsonrpc_blob_delete, DiskSpaceManager) *)
 Definition delete_blobs (s : state) (hs : list name) (from_db : bool) : state * result :=
   let (s1, ok) := delete_loop s hs in
   if negb ok then (s1, RInvalid)
-  else if from_db then (mkState (disk s1) (db_delete_all (db s1) hs) (completed s1) (cache s1) (alive s1) (save s1), RDone)
+  else if from_db then (mkState (disk s1) (db_delete_all (db s1) hs) (completed s1) (cache s1) (alive s1) (save s1)
+                                (unmark_all (marked s1) hs), RDone)
   else (s1, RDone).
 
 (* StreamManager.delete: delete_blobs([sd] + hs, delete_from_db=False) then storage.delete_stream(descriptor) *)
 Definition stream_delete (s : state) (hs : list name) (sd : name) : state * result :=
   let (s1, ok) := delete_loop s (sd :: hs) in
   if negb ok then (s1, RInvalid)
-  else (mkState (disk s1) (db_delete_all (db s1) (hs ++ [sd])) (completed s1) (cache s1) (alive s1) (save s1), RDone).
+  else (mkState (disk s1) (db_delete_all (db s1) (hs ++ [sd])) (completed s1) (cache s1) (alive s1) (save s1)
+             (unmark_all (marked s1) (hs ++ [sd])), RDone).
 
 Inductive op :=
 | OComplete (h : name) (len : N)
@@ -291,19 +299,24 @@ Inductive op :=
 | OExtDir (n : name)                      (* behind the daemon's back: create a directory (outside the property) *)
 | OExtRemove (n : name)                   (* behind the daemon's back: remove the entry *)
 | OExtDb (h : name) (st : option status)  (* state injection: force / drop a row (explores arbitrary pre-states) *)
+| OExtMark (h : name)                     (* state injection: should_announce=1 on the row of h, if there is one *)
 | ORestart
 | ORestartSave (b : bool).             (* restart with config.save_blobs = b *)
 
-Definition with_disk (s : state) (d : disk_t) : state := mkState d (db s) (completed s) (cache s) (alive s) (save s).
-Definition with_db (s : state) (b : db_t) : state := mkState (disk s) b (completed s) (cache s) (alive s) (save s).
+Definition with_disk (s : state) (d : disk_t) : state := mkState d (db s) (completed s) (cache s) (alive s) (save s) (marked s).
+Definition with_db (s : state) (b : db_t) : state := mkState (disk s) b (completed s) (cache s) (alive s) (save s) (marked s).
 
 Definition step (s : state) (o : op) : state * result :=
   match o with
   | OExtFile n sz => (if is_dir (disk s) n then s else with_disk s (set_key (disk s) n (EFile sz)), RDone)
   | OExtDir n => (match lookup (disk s) n with None => with_disk s (set_key (disk s) n EDir) | Some _ => s end, RDone)
   | OExtRemove n => (with_disk s (remove_key (disk s) n), RDone)
-  | OExtDb h None => (with_db s (db_delete (db s) h), RDone)
+  | OExtDb h None => (mkState (disk s) (db_delete (db s) h) (completed s) (cache s) (alive s) (save s)
+                              (set_remove h (marked s)), RDone)
   | OExtDb h (Some st) => (with_db s (db_update (db_insert_ignore (db s) h st) h st), RDone)
+  | OExtMark h => (match db_status (db s) h with
+                   | Some _ => mkState (disk s) (db s) (completed s) (cache s) (alive s) (save s) (set_add h (marked s))
+                   | None => s end, RDone)
   | ORestart => (restart s, RDone)
   | ORestartSave b => (restart_with s b, RDone)
   | _ =>
@@ -328,3 +341,10 @@ Fixpoint run (s : state) (ops : list op) : state :=
 
 (* histories the property quantifies over: no directory is planted under a blob-hash name *)
 Definition is_ext_dir (o : op) : bool := match o with OExtDir _ => true | _ => false end.
+
+(* SQLiteStorage.get_blobs_to_announce() with every row due (next_announce_time in the past, no single_announce) and
+   the limit not reached:
+     announce_head_and_sd_only = True  (default): rows with should_announce=1 and status='finished'
+     announce_head_and_sd_only = False          : rows with status='finished'  *)
+Definition announce_list (head_and_sd_only : bool) (s : state) : list name :=
+  filter (fun h => is_finished (db s) h && (negb head_and_sd_only || mem h (marked s))) (map fst (db s)).
